@@ -1,16 +1,19 @@
+import re
+
 import vf
 
-FILES = ["search/zz_verif_c19_test.go", "search/zz_verif_c19race_test.go"]
+FILES = ["search/zz_verif_c19_test.go", "search/zz_verif_c19race_test.go", "search/zz_verif_c19watch_test.go"]
 SPEC = dict(
     level="proof",
-    harness=dict(pkg_dir="search", run="TestVerifC19$", files=FILES, n_quick=40, n_thorough=500),
+    harness=dict(pkg_dir="search", run="TestVerifC19$", files=FILES, n_quick=40, n_thorough=400),
     runner=dict(imports=["From ZV Require Import Lib.Base Model.Watcher."], case_type="c19case",
-                mismatch_fn="c19_mismatches", shard=150),
+                mismatch_fn="c19_mismatches", shard=1000),
     rule="script cases: 4-9 steps of 1-3 directory changes each (create / replace by rename / delete / sidecar write+delete / junk / "
-         "odd *.zoekt names incl. '_.'-names / unloadable files; names x versions {15,16,17,18} x shard {0,1}; fresh, equal and "
-         "sidecar-dominated mtimes) on a scratch directory, explicit scan() after each step, real Lstat mtimes; non-trivial = at "
-         "least one drop and one reload after the first scan. vfp cases (4 per script): versionFromPath on builder-style and "
-         "random strings over {_ . v digits + - / ...}; non-trivial = contains both '_' and '.'.",
+         "odd *.zoekt names incl. '_.'-names / unloadable files; names x versions {15,16,17,18} x shard {0,1}; replacement mtimes "
+         "later, EQUAL and OLDER than the replaced file's; sidecars later than / equal to the shard, dominating sidecars removed) on a "
+         "scratch directory, explicit scan() after each step, real Lstat mtimes; non-trivial = at least one drop and one reload "
+         "after the first scan. vfp cases (4 per script): versionFromPath on builder-style and random strings over "
+         "{_ . v digits + - / ...}; non-trivial = contains both '_' and '.'.",
     trusted_base=["correspondence harness harness/overlay/search/zz_verif_c19_test.go (directory scripts, content identities via a "
                   "real search on each loaded shard, Go oracle)",
                   "filepath.Glob / os.Lstat / strconv.Atoi modelled by their contracts (suffix filter, listing lookup, signed decimal int64)",
@@ -21,32 +24,58 @@ SPEC = dict(
                  "shard files are complete when they appear (installed by rename)"],
 )
 
+# What in the output of the -race stress run decides the verdict: a report of the race detector, a crash of the
+# process, a panic in a search.  Everything else the stress run observes (schedule- and load-dependent: convergence
+# within a deadline, ...) is recorded in the evidence as supporting information only.
+_CRASH_RE = re.compile(r"(fatal error: [^\n]*|unexpected fault address[^\n]*|SIGSEGV[^\n]*|SIGBUS[^\n]*|^panic: [^\n]*)", re.M)
+_DECIDING_KEYS = ("race:search-panic", "race:list-panic")
+_RACE_CMD = "go test -race -run TestVerifC19Race$ ./search (overlay harness/overlay/search/zz_verif_c19race_test.go)"
+
+
+def race_stress(ctx):
+    """-race stress run of the real directory searcher (supporting evidence for the runtime half).
+    Returns (deciding failures, coverage record)."""
+    hr = vf.go_harness(ctx, "search", "TestVerifC19Race$", FILES, 240, race=True, timeout=540, out_name="race.jsonl")
+    deciding, soft, info = [], [], {}
+    for r in hr["records"]:
+        if r.get("kind") == "oracle_fail":
+            f = dict(key=r.get("key", "?"), what=r.get("what", ""), replay=r.get("replay"))
+            (deciding if f["key"] in _DECIDING_KEYS else soft).append(f)
+        elif r.get("kind") == "info":
+            info.update({k: v for k, v in r.items() if k != "kind"})
+    log = hr["log"]
+    data_race = "DATA RACE" in log
+    if data_race:
+        i = log.index("DATA RACE")
+        deciding.append(dict(key="race:data-race", what="the race detector reported a data race during concurrent reloads and searches",
+                             replay=dict(seed=ctx.seed, run=_RACE_CMD, log=log[max(0, i - 200):i + 3500])))
+    m = _CRASH_RE.search(log) if hr["rc"] not in (0, 124) else None
+    if m and "test timed out" in m.group(1):     # go test's own watchdog: the run did not finish, nothing crashed
+        m = None
+    if m and not deciding:
+        deciding.append(dict(key="race:crash", what="the process crashed during concurrent reloads and searches: " + m.group(1)[:200],
+                             replay=dict(seed=ctx.seed, run=_RACE_CMD, log=log[max(0, m.start() - 200):m.start() + 3500])))
+    rec = dict(info.get("race_stress", {}), rc=hr["rc"], race_detector=True, completed=bool(info.get("race_stress")),
+               data_race=data_race, crash=bool(m),
+               non_deciding_observations=[dict(key=f["key"], what=f["what"][:300]) for f in soft],
+               role="supporting evidence only: decides the verdict only through a data-race report or a crash/panic")
+    if not rec["completed"] and not deciding:
+        rec["inconclusive"] = "rc=%d: %s" % (hr["rc"], log[-300:])
+    for f in soft:
+        print("NOTE property=C19 race-stress observation (supporting evidence, does not decide the verdict): %s: %s" % (f["key"], f["what"][:200]))
+    return deciding, rec
+
 
 def run(ctx):
     if ctx.tier != "thorough":
         return vf.standard_check(ctx, SPEC)
-    # thorough tier: -race stress run of the real directory searcher (supporting evidence for the runtime half)
-    hr = vf.go_harness(ctx, "search", "TestVerifC19Race$", FILES, 300, race=True, timeout=420, out_name="race.jsonl")
-    extra_fail, extra_broken, info = [], [], {}
-    for r in hr["records"]:
-        if r.get("kind") == "oracle_fail":
-            extra_fail.append(dict(key=r.get("key", "?"), what=r.get("what", ""), replay=r.get("replay")))
-        elif r.get("kind") == "info":
-            info.update({k: v for k, v in r.items() if k != "kind"})
-    if "DATA RACE" in hr["log"]:
-        extra_fail.append(dict(key="race:data-race", what="the race detector reported a data race during concurrent reloads and searches",
-                               replay=dict(seed=ctx.seed, log=hr["log"][-3000:])))
-    elif hr["rc"] != 0 and not extra_fail:
-        # supporting evidence only: a run that neither reports a race nor an oracle failure (e.g. it timed out on an
-        # overloaded machine) is recorded as inconclusive, it does not decide the verdict
-        info["race_stress_inconclusive"] = "rc=%d: %s" % (hr["rc"], hr["log"][-300:])
+    extra_fail, rec = race_stress(ctx)
     orig = vf.finish
 
     def finish2(ctx_, level, proofs, coverage, failures=(), broken=(), **kw):
         coverage = dict(coverage)
-        coverage["race_stress"] = dict(info.get("race_stress", {}), rc=hr["rc"], race_detector=True,
-                                       inconclusive=info.get("race_stress_inconclusive", ""))
-        return orig(ctx_, level, proofs, coverage, failures=list(failures) + extra_fail, broken=list(broken) + extra_broken, **kw)
+        coverage["race_stress"] = rec
+        return orig(ctx_, level, proofs, coverage, failures=list(failures) + extra_fail, broken=broken, **kw)
     vf.finish = finish2
     try:
         return vf.standard_check(ctx, SPEC)
